@@ -318,9 +318,12 @@ Definition unmarshal_signature (ctx : nsctx) (el : node) : res signature :=
   do det <- relabel (EOther "reserved-ns") (detach ctx el);
   do v <- relabel e_unmarshal (unmarshal_element_original dsig_schema "Signature" det);
   Ok (to_signature v).
-(* xml.Unmarshal(canonicalSignedInfoBytes, &types.SignedInfo{}) after [reparse] *)
+(* xml.Unmarshal(canonicalSignedInfoBytes, &types.SignedInfo{}) (validate.go:295) after [reparse]: the struct decoder reads
+   the element the token loop consumed from those bytes DIRECTLY (Schema.view_direct) -- there is no etree serialisation in
+   between, so a U+000D that entered a value through the canonical writer's "&#xD;" stays (Schema.view_original would turn it
+   into U+000A a second time, as NSUnmarshalElement in findSignature does: [unmarshal_signature]) *)
 Definition unmarshal_signed_info (n : node) : res signed_info :=
-  do v <- relabel (EOther "si-unmarshal") (unmarshal_element_original dsig_schema "SignedInfo" n);
+  do v <- relabel (EOther "si-unmarshal") (unmarshal_element_direct dsig_schema "SignedInfo" n);
   Ok (to_signed_info v).
 
 (* ================================================================ validate.go : findSignature *)
@@ -712,9 +715,8 @@ Definition ok_val {A} (f : A -> val) (r : res A) : val := match r with Ok a => V
      [ outcome (Ok + equality with the tree Validate returned | Err + stage label);
        path of the signature found + equality of the tree findSignature left behind with the real one;
        canonical SignedInfo bytes; canonical referenced bytes; were all canonicaliser questions answered by the table ] *)
-Definition dsig_obs_with (canon : canon_alg -> node -> option string)
+Definition dsig_obs_gen (canon : canon_alg -> node -> option string) (reparse : string -> option node)
            (t : oracle_tables) (store : list cert) (now : instant) (root : node) (exp_tree exp_mut : option node) : val :=
-  let reparse := reparse_table (ot_reparse t) in
   let out := match validate_res canon (digest_table (ot_digest t)) (sig_table (ot_sig t)) (cert_table (ot_certs t)) reparse store now root with
              | Ok v => VC "Ok" [VB (opt_node_eqb exp_tree v)]
              | Err e => VC "Err" [VS (err_label e)]
@@ -732,6 +734,11 @@ Definition dsig_obs_with (canon : canon_alg -> node -> option string)
            | Ok q => canon_known (ot_canon t) (snd q) (fst q)
            | Err _ => true
            end) ].
+
+(* the re-parse answered by the table computed with etree (DsigReader.v: [dsig_obs_model2] answers it with the reader model
+   XmlTok.read_tree instead) *)
+Definition dsig_obs_with (canon : canon_alg -> node -> option string) (t : oracle_tables) :=
+  dsig_obs_gen canon (reparse_table (ot_reparse t)) t.
 
 (* with the canonicalisers answered by the table computed with the real library (Canon.v: [dsig_obs_model] answers them
    with the model instead) *)
